@@ -184,7 +184,63 @@ def eval_term(t, leaf):
         return v
     if h == "call" and t[1].endswith(("::from", "::into")) and len(t[2]) == 1:
         return eval_term(t[2][0], leaf)
+    if h == "call" and FACTS is not None:
+        try:
+            return leaf(t)
+        except NotEvaluable:
+            v = _eval_local_call(t, leaf)
+            if v is None:
+                raise
+            return v
     return leaf(t)
+
+
+FACTS = None       # set by a rule module that wants crate-local pure helpers evaluated through (eval_term)
+_PURE = {}
+
+
+def _pure_return_term(body):
+    """Return-value term of a crate-local function that only computes (no calls except checked arithmetic, no stores
+    through references); None otherwise."""
+    if body.defk in _PURE:
+        return _PURE[body.defk]
+    res = None
+    okk = True
+    for blk in body.blocks:
+        if blk.cleanup:
+            continue
+        if blk.term.k == "call" or blk.term.k == "switch":
+            okk = False
+        for s in blk.stmts:
+            if s.k == "assign" and any(pr[0] == "deref" for pr in s.place.proj):
+                okk = False
+    if okk:
+        res = Terms(body).of_local(0)
+    _PURE[body.defk] = res
+    return res
+
+
+def _eval_local_call(t, leaf):
+    name = t[1]
+    cands = [b for b in FACTS.bodies if b.promoted is None and short(b.name).split("::<")[0].endswith(name.split("::<")[0]) and b.arg_count == len(t[2])]
+    if len(cands) != 1:
+        return None
+    rt = _pure_return_term(cands[0])
+    if rt is None:
+        return None
+    try:
+        args = [eval_term(a, leaf) for a in t[2]]
+    except NotEvaluable:
+        return None
+
+    def inner(q):
+        if q[0] == "arg" and isinstance(q[1], int) and 1 <= q[1] <= len(args):
+            return args[q[1] - 1]
+        raise NotEvaluable(q)
+    try:
+        return eval_term(rt, inner)
+    except NotEvaluable:
+        return None
 
 
 def eval_cmp(t, leaf):
